@@ -169,7 +169,11 @@ func genTWCCBytes(t *rapid.T) (string, []byte) {
 			b[off], b[off+1] = byte(v>>8), byte(v)
 		}
 	}
-	switch rapid.IntRange(0, 8).Draw(t, "twccbytes.kind") {
+	switch rapid.IntRange(0, 9).Draw(t, "twccbytes.kind") {
+	case 9:
+		// a long status sequence (count up to 65535) whose final run may be longer than what remains
+		s, c1, _ := gen.LongTWCC(t)
+		return "valid-long-sequence", enc(gen.BuildTWCC(t, s, c1))
 	case 8:
 		// a length field far larger than the buffer (16-bit arithmetic on it must not wrap)
 		b := enc(gen.TWCC(t))
@@ -364,8 +368,21 @@ func TestC13(t *testing.T) {
 				maxLen = 65535
 			}
 		}
-		s := gen.Statuses(rt, maxLen)
-		c := c13Seq{Statuses: s.Statuses, Ticks: s.Ticks, C1: gen.Chunking(rt, s.Statuses, true), C2: gen.Chunking(rt, s.Statuses, true)}
+		var c c13Seq
+		var s gen.TWCCSeq
+		if rapid.IntRange(0, 11).Draw(rt, "long?") == 0 {
+			// status counts up to 65535 (runs of lost packets keep the packet small)
+			var c1, c2 []m.TWCCChunk
+			s, c1, c2 = gen.LongTWCC(rt)
+			c = c13Seq{Statuses: s.Statuses, Ticks: s.Ticks, C1: c1, C2: c2}
+			harness.Class("B-long-sequence", 1)
+			if len(s.Statuses) > 57344 {
+				harness.Class("B-long-sequence-count-above-57344", 1)
+			}
+		} else {
+			s = gen.Statuses(rt, maxLen)
+			c = c13Seq{Statuses: s.Statuses, Ticks: s.Ticks, C1: gen.Chunking(rt, s.Statuses, true), C2: gen.Chunking(rt, s.Statuses, true)}
+		}
 		recv, lost := false, false
 		for _, x := range s.Statuses {
 			if x == m.SymNotReceived {
